@@ -123,7 +123,9 @@ def run(ctx):
         # element-wise evaluation of arrays in any order
         if hasattr(gf, "CambGrowth"):
             from astropy.cosmology import FlatwCDM
-            for cname, cosmo in (("Planck15", Planck15), ("wCDM w0=-0.8", FlatwCDM(H0=68.0, Om0=0.3, w0=-0.8, Ob0=0.048, Tcmb0=2.725))):
+            from astropy.cosmology import LambdaCDM as _LC
+            for cname, cosmo in (("Planck15", Planck15), ("wCDM w0=-0.8", FlatwCDM(H0=68.0, Om0=0.3, w0=-0.8, Ob0=0.048, Tcmb0=2.725)),
+                                 ("flat Om0=0.3", _LC(H0=70.0, Om0=0.3, Ode0=0.7 - 8.5e-5, Ob0=0.048, Tcmb0=2.725)), ("open Om0=0.3 Ode0=0.3", _LC(H0=70.0, Om0=0.3, Ode0=0.3, Ob0=0.048, Tcmb0=2.725))):
                 try:
                     cg = gf.CambGrowth(cosmo)
                 except Exception as e:
@@ -138,10 +140,10 @@ def run(ctx):
                     arr = np.asarray(cg.growth_factor(za[order].copy()), float)
                     if arr.shape != (5,) or not np.allclose(arr, sc[order], rtol=1e-9):
                         viol("CambGrowth/array-order", f"CambGrowth ({cname}): growth_factor on the {label} array {za[order].tolist()} gives {arr.tolist()}, element-wise evaluation gives {sc[order].tolist()}", {"cosmology": cname, "z": za[order].tolist()})
-                if cname == "Planck15":
+                if not cname.startswith("wCDM"):
                     ref_ = np.array([gf.GrowthFactor(cosmo).growth_factor(z) for z in za])
                     if np.max(np.abs(sc / ref_ - 1)) > 0.03:
-                        viol("CambGrowth/vs-integral-model", f"CambGrowth (Planck15) differs from the integral model by {float(np.max(np.abs(sc / ref_ - 1))):.3g}", {"cosmology": cname})
+                        viol("CambGrowth/vs-integral-model", f"CambGrowth ({cname}) differs from the integral model by {float(np.max(np.abs(sc / ref_ - 1))):.3g}", {"cosmology": cname})
             # the framework with the CAMB-based model, for either setting of the spline option
             for spl in (False, True):
                 try:
